@@ -65,6 +65,51 @@ CHECKS = {
         technique="Coq proof (structural induction over converter trees) + reflection over generated descriptors/methods + exhaustive differential correspondence",
         design_ref="6 (C05)",
     ),
+    "C01": dict(
+        text="Coq LTS (Model/Conn.v) whose actions are the primitive events of the real threads; theorems by invariant for EVERY action list (any number of callers, any "
+        "interleaving, any device): FIFO (enq = deq ++ queue), exactly-once/in-order (written items ++ item in hand = non-marker items dequeued), wire is a prefix of the "
+        "submissions, per-caller order, idle implies all written, each write is frame(text) = one CRLF line that decodes back unchanged, only the sender writes. "
+        "The real ynca/pyserial threads run unmodified under a deterministic simulation harness; each recorded event trace is replayed in the model (every event must be enabled; "
+        "wire, deliveries and log equal) and judged by an independent monitor.",
+        note=BASE_NOTE + "Modelled, not verified: pyserial ReaderThread/LineReader, queue.Queue, threading.Event/Lock/Thread.join, time.sleep and the port are replaced by the harness's simulated primitives (their contracts are the model's assumptions); real-clock behaviour and OS scheduling latency are outside every theorem.",
+        technique="Coq proof by invariants over a labelled transition system (all schedules) + trace-inclusion correspondence via deterministic simulation",
+        design_ref="6 (C01), 3.3, 4.2",
+    ),
+    "C08": dict(
+        text="Coq theorem over the connection LTS: for EVERY action list, with unrestricted time steps (arbitrary scheduling delays), consecutive writes are at least "
+        "p_spacing apart and only the sender's write transition extends the wire; reflection: the regenerated constant is >= 100 ms. Real threads run under the deterministic "
+        "harness (bursts, several callers, idle gaps, injected stalls), traces replayed in the model, minimum gap monitored.",
+        note=BASE_NOTE + "Modelled, not verified: pyserial ReaderThread/LineReader, queue.Queue, threading.Event/Lock/Thread.join, time.sleep and the port are replaced by the harness's simulated primitives (their contracts are the model's assumptions); real-clock behaviour and OS scheduling latency are outside every theorem.",
+        technique="Coq proof by invariant over an LTS (all schedules, unrestricted delays) + trace-inclusion correspondence via deterministic simulation",
+        design_ref="6 (C08)",
+    ),
+    "C12": dict(
+        text="Coq theorem over URGENT runs of the connection LTS (time passes only while the sender is blocked and never past its deadline; nobody else takes the lock or drains "
+        "the queue): while the sender lives, time since the last write <= keepalive + spacing; consecutive writes at most that far apart; first write within keepalive; the two "
+        "probes queued at connect are the first two writes (from C01's prefix theorem); reflection: keepalive <= 30 s. Sessions across keep-alive expiries are simulated without "
+        "injected stalls, replayed and monitored.",
+        note=BASE_NOTE + "Modelled, not verified: pyserial ReaderThread/LineReader, queue.Queue, threading.Event/Lock/Thread.join, time.sleep and the port are replaced by the harness's simulated primitives (their contracts are the model's assumptions); real-clock behaviour and OS scheduling latency are outside every theorem." + " PARTIAL with respect to the runtime: assumes computation, writes and wake-ups take no time.",
+        technique="Coq proof by invariant over a timed LTS with urgency + trace-inclusion correspondence via deterministic simulation",
+        design_ref="6 (C12)",
+    ),
+    "C13": dict(
+        text="Coq theorems over the connection LTS for EVERY action list: every line's fate is decided once in arrival order; delivered = parse of the non-withheld lines in order; "
+        "withheld lines are SYS:MODELNAME replies and withholding requires reading the flag as set, which requires a probe started since the flag was last cleared; conversely the "
+        "flag persists until the reader clears it and then a MODELNAME line is withheld. Simulated sessions bias reader steps between the sender's flag write and port write; traces "
+        "replayed in the model; monitor evaluates the statement on the event record.",
+        note=BASE_NOTE + "Modelled, not verified: pyserial ReaderThread/LineReader, queue.Queue, threading.Event/Lock/Thread.join, time.sleep and the port are replaced by the harness's simulated primitives (their contracts are the model's assumptions); real-clock behaviour and OS scheduling latency are outside every theorem.",
+        technique="Coq proof by invariant over an LTS (all schedules) + trace-inclusion correspondence via deterministic simulation",
+        design_ref="6 (C13)",
+    ),
+    "C20": dict(
+        text="Coq theorems for EVERY N and every action list: the buffer is lastn N of the complete log (so <= N entries, empty for N = 0; deque model ring_add proved equal to "
+        "bounding the appended log); Send entries = written texts in order plus at most one not yet written; Received entries = received lines in arrival order; received lines = "
+        "framing of the emitted bytes; when the device answers write w its Send entry is already logged. Simulated sessions with N in {0..10000}, log read concurrently; traces "
+        "replayed; monitor compares with the port's own record.",
+        note=BASE_NOTE + "Modelled, not verified: pyserial ReaderThread/LineReader, queue.Queue, threading.Event/Lock/Thread.join, time.sleep and the port are replaced by the harness's simulated primitives (their contracts are the model's assumptions); real-clock behaviour and OS scheduling latency are outside every theorem.",
+        technique="Coq proof by invariants over an LTS (all schedules) + trace-inclusion correspondence via deterministic simulation",
+        design_ref="6 (C20)",
+    ),
 }
 
 ALL = ["C%02d" % i for i in range(1, 21)]
